@@ -99,6 +99,8 @@ inductive Ty
 /-- which of the five conversion macros -/
 inductive ConvKind
   | fromNN | fromNP | fromPN | tryNN | tryPN
+  /-- hand-written `TryFrom<P> for T` that delegates: `T::try_from(<V>::from(value))` -/
+  | tryPNvia (via : PrimTy)
   deriving DecidableEq, Repr, Inhabited
 
 structure ConvEntry where
